@@ -15,7 +15,7 @@ RULE = ("a case is a random schema (all field families, nested schemas, config t
         "M-inv judges every readable value at every depth against the reference model, and after accepted assignments "
         "the whole state is compared with the prediction 'only this path changed, to the model's normal form'; "
         "non-trivial = >= 1 accepted and >= 1 rejected operation over >= 2 routes; distinct = distinct (schema, history)")
-REQUIRED = ("tuples_assigned_a_second_time", "copies_between_items_of_one_list", "inv_walks", "inv_values_judged", "readback_checks", "accepted_ops", "rejected_ops", "route:set", "route:set-sub",
+REQUIRED = ("dict_updates_with_own_copy_and_keywords", "tuples_assigned_a_second_time", "copies_between_items_of_one_list", "inv_walks", "inv_values_judged", "readback_checks", "accepted_ops", "rejected_ops", "route:set", "route:set-sub",
             "route:ctor", "route:load_tree", "route:loads", "route:cmdline", "route:reset", "route:listop", "route:dictop", "route:serialize")
 ASSUMPTIONS = ["the reference model (vf/model.py) states the declared constraints; values whose status the documentation "
                "leaves open are not judged", "declared defaults are generated in normal form (the property is "
